@@ -1,5 +1,8 @@
 mod common;
 mod e2;
+mod e4;
+mod e6;
+mod http;
 mod model;
 mod sched;
 mod seq;
@@ -33,6 +36,24 @@ fn check(prop: &str, tier: &str) -> i32 {
             e2::run(prop, tier, &mut r);
             r.finish()
         }
+        "C13" => {
+            let mut r = Report::new(prop, tier, "model_checking");
+            r.assumptions = vec![
+                "hyper's HTTP/1.1 parsing and tokio are explored through, not modelled".into(),
+                "bounded: request alphabet and sequence length as reported in coverage; any 2xx counts as success".into(),
+            ];
+            e4::run_c13(tier, &mut r);
+            r.finish()
+        }
+        "C12" => {
+            let mut r = Report::new(prop, tier, "model_checking");
+            r.assumptions = vec![
+                "serde_json, serde_urlencoded, ssri and hyper are explored through, not modelled".into(),
+                "bounded: the token alphabets listed under coverage.rule; values outside them are not covered".into(),
+            ];
+            e6::run_c12(tier, &mut r);
+            r.finish()
+        }
         _ => {
             eprintln!("no check registered for {}", prop);
             2
@@ -61,6 +82,8 @@ fn main() {
             match args[2].as_str() {
                 "seq" => seq::worker(&args[3], &args[4]),
                 "e2" => e2::worker(&args[3]),
+                "e4" => e4::worker(),
+                "e6" => e6::worker(),
                 _ => usage(),
             }
             0
@@ -75,6 +98,8 @@ fn main() {
             let c = match rp["engine"].as_str().unwrap_or("") {
                 "seq" => seq::replay(rp),
                 "e2" => e2::replay(rp),
+                "e4" => e4::replay(rp),
+                "e6" => e6::replay(rp),
                 other => {
                     eprintln!("unknown replay engine {:?}", other);
                     2
